@@ -7,7 +7,7 @@ sys.path.insert(0, os.path.dirname(os.path.abspath(__file__)))
 import vlib, gen_hashpad
 
 THMS = ["IsalVerif.GenProps.HashPad.all_canon", "IsalVerif.GenProps.HashPad.all_count",
-        "IsalVerif.GenProps.HashPad.hashpad_current", "IsalVerif.GenProps.HashPad.hashpad_current_junk",
+        "IsalVerif.GenProps.HashPad.hashpad_current", "IsalVerif.GenProps.HashPad.hashpad_current_junk", "IsalVerif.GenProps.HashPad.hashpad_is_standard",
         "IsalVerif.GenProps.HashPad.specOf_is_standard", "IsalVerif.PadC.skeleton_correct",
         "IsalVerif.PadC.canon64", "IsalVerif.PadC.canon128", "IsalVerif.PadC.natLE_bswap"]
 BLOCK = {"sha1": 64, "sha256": 64, "sha512": 128, "md5": 64, "sm3": 64}
